@@ -1,0 +1,193 @@
+//! # Pre-image journal
+//!
+//! The write-ahead log is logical: recovery replays it onto the database file as it was at the
+//! last checkpoint. Between two checkpoints, however, the file is overwritten in place (dirty
+//! pages evicted from the cache, and the page writes of the next checkpoint itself), so after a
+//! crash it is neither the old checkpoint nor the new one.
+//!
+//! Before a page of the last checkpoint is overwritten for the first time, its previous contents
+//! are appended to this journal and synced. Pages beyond the end of the checkpointed file need no
+//! copy. After a crash the file is returned to the last checkpoint by copying the saved pages back
+//! and cutting the file to its checkpointed length; the log is then replayed as usual.
+//!
+//! A checkpoint takes effect when the journal is marked [`State::Done`]: from then on the file is
+//! the new checkpoint and the only thing left to do is to drop the log.
+//!
+//! Layout: `[magic u64][state u64][page size u64][checkpointed pages u64]` followed by entries
+//! `[page number u64][checksum u64][page bytes]`. An entry that is incomplete or whose checksum
+//! does not match was being appended when the crash happened: its page was never overwritten.
+use crate::{
+    io::disk::{DBFile, FileOperations},
+    types::PageId,
+};
+
+use std::{
+    collections::HashSet,
+    io::{self, Read, Seek, SeekFrom, Write},
+    path::Path,
+};
+
+const JOURNAL_MAGIC: u64 = 0x4158_4D4F_534A_524E;
+const HEADER_SIZE: usize = 32;
+const ENTRY_HEADER_SIZE: usize = 16;
+
+#[derive(Debug, Clone, Copy, PartialEq, Eq)]
+#[repr(u64)]
+enum State {
+    /// The saved pages describe the last checkpoint.
+    Active = 1,
+    /// The file is a complete new checkpoint; the log has not been dropped yet.
+    Done = 2,
+}
+
+/// What a journal found on disk says about the database file.
+pub(crate) enum Leftover {
+    /// No usable journal: the file is a checkpoint and the log belongs to it.
+    Nothing,
+    /// The file may have been overwritten since the last checkpoint: restore these pages and cut
+    /// the file to `base_pages`.
+    Restore {
+        page_size: usize,
+        base_pages: u64,
+        pages: Vec<(PageId, Vec<u8>)>,
+    },
+    /// A checkpoint completed but the log was not dropped.
+    DropLog,
+}
+
+pub(crate) struct Journal {
+    file: DBFile,
+    page_size: usize,
+    base_pages: u64,
+    saved: HashSet<PageId>,
+}
+
+fn checksum(page: PageId, bytes: &[u8]) -> u64 {
+    // FNV-1a
+    let mut hash: u64 = 0xcbf2_9ce4_8422_2325;
+    for byte in page.to_le_bytes().iter().chain(bytes.iter()) {
+        hash ^= u64::from(*byte);
+        hash = hash.wrapping_mul(0x0000_0100_0000_01b3);
+    }
+    hash
+}
+
+fn read_u64(bytes: &[u8], at: usize) -> u64 {
+    u64::from_le_bytes(bytes[at..at + 8].try_into().expect("eight bytes"))
+}
+
+impl Journal {
+    /// Starts a journal for a file whose first `base_pages` pages are a checkpoint.
+    pub(crate) fn create(
+        path: impl AsRef<Path>,
+        page_size: usize,
+        base_pages: u64,
+    ) -> io::Result<Self> {
+        let file = DBFile::create_buffered(path)?;
+        let mut journal = Self {
+            file,
+            page_size,
+            base_pages,
+            saved: HashSet::new(),
+        };
+        journal.write_header(State::Active)?;
+        Ok(journal)
+    }
+
+    /// Reads what a previous run left in the journal at `path`.
+    pub(crate) fn leftover(path: impl AsRef<Path>) -> io::Result<Leftover> {
+        if !path.as_ref().exists() {
+            return Ok(Leftover::Nothing);
+        }
+        let mut content = Vec::new();
+        DBFile::open_buffered(path)?.read_to_end(&mut content)?;
+
+        if content.len() < HEADER_SIZE || read_u64(&content, 0) != JOURNAL_MAGIC {
+            return Ok(Leftover::Nothing);
+        }
+        let state = read_u64(&content, 8);
+        let page_size = read_u64(&content, 16) as usize;
+        let base_pages = read_u64(&content, 24);
+
+        if state == State::Done as u64 {
+            return Ok(Leftover::DropLog);
+        }
+        if state != State::Active as u64 || page_size == 0 {
+            return Ok(Leftover::Nothing);
+        }
+
+        let mut pages = Vec::new();
+        let mut at = HEADER_SIZE;
+        while at + ENTRY_HEADER_SIZE + page_size <= content.len() {
+            let page = read_u64(&content, at);
+            let sum = read_u64(&content, at + 8);
+            let bytes = &content[at + ENTRY_HEADER_SIZE..at + ENTRY_HEADER_SIZE + page_size];
+            if checksum(page, bytes) != sum {
+                break;
+            }
+            pages.push((page, bytes.to_vec()));
+            at += ENTRY_HEADER_SIZE + page_size;
+        }
+
+        Ok(Leftover::Restore {
+            page_size,
+            base_pages,
+            pages,
+        })
+    }
+
+    pub(crate) fn remove(path: impl AsRef<Path>) -> io::Result<()> {
+        if path.as_ref().exists() {
+            DBFile::remove(path)?;
+        }
+        Ok(())
+    }
+
+    fn write_header(&mut self, state: State) -> io::Result<()> {
+        let mut header = [0u8; HEADER_SIZE];
+        header[0..8].copy_from_slice(&JOURNAL_MAGIC.to_le_bytes());
+        header[8..16].copy_from_slice(&(state as u64).to_le_bytes());
+        header[16..24].copy_from_slice(&(self.page_size as u64).to_le_bytes());
+        header[24..32].copy_from_slice(&self.base_pages.to_le_bytes());
+        self.file.seek(SeekFrom::Start(0))?;
+        self.file.write_all(&header)?;
+        self.file.sync_all()
+    }
+
+    /// Must the contents of `page` be saved before it is overwritten?
+    pub(crate) fn needs(&self, page: PageId) -> bool {
+        page < self.base_pages && !self.saved.contains(&page)
+    }
+
+    /// Appends the checkpointed contents of `page`. Not durable until [`Journal::sync`].
+    pub(crate) fn save(&mut self, page: PageId, bytes: &[u8]) -> io::Result<()> {
+        debug_assert_eq!(bytes.len(), self.page_size);
+        let mut entry = Vec::with_capacity(ENTRY_HEADER_SIZE + bytes.len());
+        entry.extend_from_slice(&page.to_le_bytes());
+        entry.extend_from_slice(&checksum(page, bytes).to_le_bytes());
+        entry.extend_from_slice(bytes);
+        self.file.seek(SeekFrom::End(0))?;
+        self.file.write_all(&entry)?;
+        self.saved.insert(page);
+        Ok(())
+    }
+
+    pub(crate) fn sync(&self) -> io::Result<()> {
+        self.file.sync_all()
+    }
+
+    /// The file is a complete new checkpoint.
+    pub(crate) fn mark_done(&mut self) -> io::Result<()> {
+        self.file.seek(SeekFrom::Start(8))?;
+        self.file.write_all(&(State::Done as u64).to_le_bytes())?;
+        self.file.sync_all()
+    }
+
+    /// Starts over: the first `base_pages` pages of the file are the checkpoint from now on.
+    pub(crate) fn reset(&mut self, base_pages: u64) -> io::Result<()> {
+        self.file.truncate()?;
+        self.saved.clear();
+        self.base_pages = base_pages;
+        self.write_header(State::Active)
+    }
+}
